@@ -358,7 +358,35 @@ def case_compiler(idx, rng, tier, res):
     shared.addSources(CallbackReader(lambda n, c: cur.get(n)))
     shared.addSearchers(StubSearcher(*(pipeline.BASE_STUBS + pipeline.HOME_STUBS)))
     earlier = []
+    # one call of a pysnmp history may use a custom destination template (with its own pysnmp/base.j2):
+    # nothing of it may show in later calls, neither on this compiler nor on fresh ones
+    tdir = None
+    if backend == 'pysnmp' and len(calls) >= 3 and rng.random() < 0.5:
+        import tempfile
+        tdir = tempfile.mkdtemp(prefix='verif-c12t-', dir=env.scratch_root())
+        os.makedirs(os.path.join(tdir, 'pysnmp'))
+        with open(os.path.join(tdir, 'custom.j2'), 'w') as f:
+            f.write('{% extends "pysnmp/mib-definitions.j2" %}\n')
+        with open(os.path.join(tdir, 'pysnmp', 'base.j2'), 'w') as f:
+            f.write('# CUSTOM HEADER of a user template\n')
+        tcall = rng.randrange(0, len(calls) - 1)
+        res.count('custom_template_calls')
     for k, (texts, names, opts) in enumerate(calls):
+        if tdir and k == tcall:
+            cwd = os.getcwd()
+            os.chdir(tdir)
+            try:
+                cur.clear()
+                cur.update(pipeline.fixtures())
+                cur.update(texts)
+                written.clear()
+                try:
+                    shared.compile(*names, **dict(opts, dstTemplate='custom.j2'))
+                except Exception:
+                    pass
+            finally:
+                os.chdir(cwd)
+            continue
         cur.clear()
         cur.update(pipeline.fixtures())
         cur.update(texts)
@@ -391,6 +419,9 @@ def case_compiler(idx, rng, tier, res):
                           'later call on the same MibCompiler (%s)' % backend, replay={'backend': backend},
                           component='compiler')
             break
+    if tdir:
+        import shutil
+        shutil.rmtree(tdir, ignore_errors=True)
     res.count('compile_histories')
     res.sig = harness.stable_hash(['m', backend, [sorted(c[1]) for c in calls]])
     res.nontrivial = True
@@ -405,6 +436,55 @@ def run_case(idx, rng, tier, res):
         case_codegen(idx, rng, tier, res)
     else:
         case_compiler(idx, rng, tier, res)
+
+
+def cli_hashseed(res, seeds):
+    """mibdump given MIBs by path in several directories: which copy of a shared dependency is compiled
+    must not depend on the hash seed"""
+    import shutil
+    import tempfile
+    base = tempfile.mkdtemp(prefix='verif-c12cli-', dir=env.scratch_root())
+    try:
+        fix = os.path.join(base, 'fix')
+        os.makedirs(fix)
+        for b in orch.BASE:
+            with open(os.path.join(fix, b), 'w') as f:
+                f.write(pipeline.fixtures()[b])
+        paths = []
+        for k, d in enumerate(['alpha', 'beta', 'gamma', 'delta']):
+            dd = os.path.join(base, d)
+            os.makedirs(dd)
+            top = '%s-MIB' % ('ABCD'[k] * 2)
+            with open(os.path.join(dd, top + '.txt'), 'w') as f:
+                f.write(orch.module_text(orch.MODNAMES[k], ['HH-MIB'], 'disk').replace(orch.MODNAMES[k], top))
+            with open(os.path.join(dd, 'HH-MIB'), 'w') as f:
+                f.write(orch.module_text('HH-MIB', [], 'copy%d' % k, tag_arc=k + 1))
+            paths.append(os.path.join(dd, top + '.txt'))
+        outs = {}
+        for hs in seeds:
+            dst = os.path.join(base, 'dst_%s' % hs)
+            e = env.child_env(hs)
+            e['PYTHONPATH'] = env.REPO
+            e['HOME'] = base
+            p = subprocess.run([env.PYTHON, os.path.join(env.REPO, 'scripts', 'mibdump.py'), '--mib-source=' + fix,
+                                '--destination-directory=' + dst, '--destination-format=json',
+                                '--mib-borrower=' + base] + paths, env=e, stdout=subprocess.PIPE,
+                               stderr=subprocess.PIPE, timeout=300, cwd=base)
+            try:
+                with open(os.path.join(dst, 'HH-MIB.json')) as f:
+                    outs[hs] = mask(f.read())
+            except IOError:
+                outs[hs] = 'no output (exit %s): %s' % (p.returncode, p.stderr.decode('utf-8', 'replace')[-200:])
+        res.count('cli_hashseed_runs', len(outs))
+        ref = outs[seeds[0]]
+        for hs, o in outs.items():
+            if o != ref:
+                res.violation('cli_hashseed_dependence', 'mibdump over MIBs given by path in four directories compiled a '
+                              'different copy of the shared dependency under PYTHONHASHSEED=%s than under %s' % (hs, seeds[0]),
+                              replay={'seeds': [seeds[0], hs]}, what='cli')
+                break
+    finally:
+        shutil.rmtree(base, ignore_errors=True)
 
 
 def extra(tier, seed, emit):
@@ -451,6 +531,7 @@ def extra(tier, seed, emit):
                     what=what.split(':')[0], backend=what.split(':')[1])
     res.count('hashseed_items_compared', n)
     res.count('hashseed_processes', len(outs))
+    cli_hashseed(res, seeds)
     res.evals = len(outs)
     res.sig = 'hashseed'
     res.nontrivial = True
